@@ -113,6 +113,9 @@ func init() {
 		in.e.Assert(And(Eq(x.len, y.len), Not(differ)), label, site)
 		return nil
 	})
+	reg(vapiPkg+"Min", func(in *Interp, fr *frame, fn *ssa.Function, a []Value, site string) Value {
+		return Min(a[0].(*Term), a[1].(*Term), true)
+	})
 	reg(vapiPkg+"Cover", func(in *Interp, fr *frame, fn *ssa.Function, a []Value, site string) Value {
 		in.e.Cover(in.mustConcStr(a[0], "vapi.Cover label"))
 		return nil
@@ -363,7 +366,7 @@ func (in *Interp) unwrapAll(fr *frame, err IfaceV, site string) []IfaceV {
 	if err.t == nil || err.t == in.opaqueT {
 		return nil
 	}
-	if m := in.prog.LookupMethod(err.t, nil, "Unwrap"); m != nil {
+	if m := in.findMethod(err.t, "Unwrap"); m != nil {
 		res := in.callFunction(fr, m, []Value{err.v}, nil, site)
 		switch r := res.(type) {
 		case IfaceV:
@@ -390,7 +393,7 @@ func (in *Interp) errorsIs(fr *frame, err, target IfaceV, site string) bool {
 		return true
 	}
 	if _, isOp := err.v.(*Opaque); !isOp && err.t != in.opaqueT {
-		if m := in.prog.LookupMethod(err.t, nil, "Is"); m != nil {
+		if m := in.findMethod(err.t, "Is"); m != nil {
 			r := in.callFunction(fr, m, []Value{err.v, target}, nil, site).(*Term)
 			if in.e.Branch(r, "errors.Is:"+site) {
 				return true
@@ -600,4 +603,15 @@ func isNoopStub(fn *ssa.Function, name string) bool {
 		return true
 	}
 	return false
+}
+
+// findMethod returns the exported method name of t, or nil.
+func (in *Interp) findMethod(t types.Type, name string) *ssa.Function {
+	ms := in.prog.MethodSets.MethodSet(t)
+	for i := 0; i < ms.Len(); i++ {
+		if sel := ms.At(i); sel.Obj().Name() == name {
+			return in.prog.MethodValue(sel)
+		}
+	}
+	return nil
 }
